@@ -1,5 +1,9 @@
 """C09: text writing stays inside its surface, ignores chunking and loses no cell.
 
+GEN  FlowGen (TLC): EVERY sequence of <= 3 (thorough 4) cells over eight cell
+     kinds (narrow / wide / zero-width char, newline, tab, two glyphs with
+     fallbacks, image) x widths 1..5 x wrap mode x glyph capability, plus a
+     seeded sample of the sequences of <= 5 (6) cells.
 DRV  c09-drive: (text) seeded cell sequences (narrow / wide / zero-width
      characters, newlines, tabs, glyphs with fallback text, images) laid out by
      Text for widths 1..12, both wrap modes and both glyph-capability settings,
@@ -18,8 +22,17 @@ def run(ctx):
     if ctx.replay:
         raise lib.ToolError("re-run the check: inputs are regenerated from the seed")
     rec = ctx.path("rec.ndjson")
-    lib.harness(["c09-drive", "--n", 1200 if q else 40000, "--seed", ctx.seed], stdout=rec, timeout=1800)
-    recs = lib.read_ndjson(rec)
+    # small scope, exhaustive: every cell sequence of <= 3 (thorough 4) cells over FlowGen's eight kinds x widths 1..5 x wrap x glyph
+    # settings, plus a seeded sample of the sequences of <= 5 (thorough 6) cells
+    vec1, vec2 = ctx.path("flow-all.ndjson"), ctx.path("flow-sample.ndjson")
+    gens = lib.tlc_parallel([dict(module="text/FlowGen", cfg="FlowGen.cfg", env={"OUT": vec1, "MAXLEN": "3" if q else "4", "SAMPLE": "0"}, workers=1, seed=ctx.seed, check=True),
+                             dict(module="text/FlowGen", cfg="FlowGen.cfg", env={"OUT": vec2, "MAXLEN": "5" if q else "6", "SAMPLE": "4000" if q else "150000"}, workers=1, seed=ctx.seed, check=True)])
+    rec1, rec2 = ctx.path("rec-flow-all.ndjson"), ctx.path("rec-flow-sample.ndjson")
+    lib.harness_parallel([(["c09-drive", "--n", 1200 if q else 40000, "--seed", ctx.seed], None, rec),
+                          (["c09-drive", "--vectors", "--base", 10_000_000], vec1, rec1),
+                          (["c09-drive", "--vectors", "--base", 20_000_000], vec2, rec2)], timeout=1800)
+    recs = lib.read_ndjson(rec) + lib.read_ndjson(rec1) + lib.read_ndjson(rec2)
+    nflow = len(recs) - len(lib.read_ndjson(rec))
     verdicts, _ = lib.judge_sharded(ctx, "text/WriterJudge", None, recs, "writer", nshards=lib.NCPU, timeout=3000)
     by = {r["id"]: r for r in recs}
     for v in verdicts:
@@ -34,10 +47,10 @@ def run(ctx):
             case = {k: r[k] for k in ("t", "adapter", "shape", "wraps", "bytes")}
         ctx.fail(key, (what + ": " + v["why"] + " " + r["panic"])[:900], case)
     cov = {
-        "evaluations": len(recs), "distinct_nontrivial": len({(r["t"], r.get("width"), r.get("wraps"), r.get("glyphs"), r.get("adapter"), r.get("shape"), len(r["cells"]), len(r.get("bytes", []))) for r in recs}),
+        "evaluations": len(recs), "tlc_generated_small_scope": nflow, "small_scope_space": [g.printed("GENERATED") for g in gens], "distinct_nontrivial": len({(r["t"], r.get("width"), r.get("wraps"), r.get("glyphs"), r.get("adapter"), r.get("shape"), lib.json.dumps(r["cells"]), bytes(r.get("bytes", []))) for r in recs}),
         "rule": "text: (cell sequence, width, wrap mode, glyph capability); writer: (adapter, view shape, wrap mode, byte string) x 5 chunkings; distinct = distinct parameter tuples",
         "samples": [{"t": r["t"], "width": r["width"], "cells": [c["k"] for c in r["cells"]][:10], "read": r["read"][:10]} for r in recs[:2]]
-                   + [{"t": "writer", "adapter": r["adapter"], "shape": r["shape"], "bytes": bytes(r["bytes"]).decode("latin1")} for r in recs[-2:]],
+                   + [{"t": "writer", "adapter": r["adapter"], "shape": r["shape"], "bytes": bytes(r["bytes"]).decode("latin1")} for r in [x for x in recs if x["t"] == "writer"][-2:]],
     }
     return lib.finish(ctx, "exploration", cov,
                       ["carriage return moves the cursor back by design and is excluded from the no-lost-cell clause (it is part of the containment / chunking generators)",
